@@ -7,8 +7,9 @@ Open Scope string_scope.
 Fixpoint assoc {A} (k : string) (l : list (string * A)) : option A :=
   match l with [] => None | (k', v) :: t => if String.eqb k k' then Some v else assoc k t end.
 Definition num (r : R) := VNum (Fin r).
-Definition vec (l : list R) := VList (map num l).
-Definition mat (l : list (list R)) := VList (map vec l).
+(* numpy arrays: a vector, a matrix (rows as nested lists) *)
+Definition vec (l : list R) := VArr (map num l).
+Definition mat (l : list (list R)) := VArr (map (fun r => VList (map num r)) l).
 
 Section Kin2.
 Variables (C zl v0 v1 j0 j1 m00 m01 m10 m11 q00 q01 q10 q11 : R).   (* c [m/s], data, J, measurement and sqrt(J) covariances *)
